@@ -242,6 +242,11 @@ class SliceSym(object):
         self.name = name
 
 
+class DDict(dict):
+    """ collections.defaultdict(list) """
+    pass
+
+
 class Cell(object):
     """ mutable cell for closures """
     __slots__ = ('v',)
@@ -300,6 +305,7 @@ class Ctx(object):
         self.flags = set()
         self.counter = 0
         self.inputs = []          # (name, value) symbolic inputs for counterexamples
+        self.inputs_vals = []
         self.log = []             # ghost call log: (callee, args)
         self.depth = 0
         self.frozen = False       # True while evaluating merged sub expressions: forks forbidden -> handled by sub explorer
